@@ -1479,6 +1479,14 @@ func (rn *runner) unmarshalCase(t *Target, name string, enc []byte, applied []st
 			rn.clobber(t, name, m, buf, got, desc)
 		}
 	}
+	if (rn.prop == "C06" || rn.prop == "C08" || rn.prop == "C09") && uerr == nil {
+		// the decoded message is the caller's: overwriting what it hands out must not show in any later result
+		scribbled += scribble(m)
+		if scribbleCalls++; scribbleCalls%500 == 0 {
+			Extra("scribbled-cells", scribbled)
+			scribbled = 0
+		}
+	}
 	Count("unmarshal", fmt.Sprint(desc), outcome, len(enc), len(enc) > 0)
 }
 
